@@ -43,6 +43,12 @@ CLAIMED = {
  "C13": ("error-slot discipline on SSA: setErr arguments proven non-nil by dominating tests (sticky), data flow of every TempFile/Encode/Sync/Seek/Decode error to a return or the slot, must-pass of err() before nil returns; dominance of AutoClear/AutoClean tests over every end-of-data branch of Pull",
          "Decides that a recorded writer error cannot be overwritten by a later success, that no I/O error of the listed operations is dropped, that Push/Finalise consult the slot before returning nil, and that both end-of-data branches of Pull honour AutoClear and AutoClean. It does not decide that delivered values are right after a fault.",
          "an error that reaches a return or the slot is reported by a later Push/Finalise/Pull", "DESIGN.md §2.M, §4/C13"),
+ "C19": ("multi-instance close analysis (closures started by a go statement inside a loop must close under sync.Once or an atomic-zero guard) and must-hold lockset dataflow for the Promise mailbox with caller-intersection entry locksets",
+         "Decides, for every schedule, that the Processor's result channel cannot be closed by more than one goroutine instance, and that every take/put on the Promise's one-slot mailbox happens under the promise's mutex (so no fulfiller can observe the momentarily borrowed, empty mailbox). Exactly-one-result per operation, Map's partition arithmetic and liveness are not decided.",
+         "sync.Mutex/Cond/Once/WaitGroup semantics", "DESIGN.md §2.N/L, §4/C19"),
+ "C20": ("append-aliasing analysis on SSA (append on a parameter slice, in-place mutation of the result, parameter handed back) and store-before-error-return reachability in the setters",
+         "Decides that a rejected Exons.Add cannot have touched the receiver's backing array and that SetExons/SetFeatures store into the receiver only after every check has passed — the 'rejected updates leave the previous exon set exactly as it was' clause. Tiling and position/orientation composition are value-level and not decided.",
+         "append reuses spare capacity of its first argument", "DESIGN.md §2.O, §4/C20"),
  "C17": ("constant-table consistency check over go/types constant values of the built-in alphabet definitions (AST + types)",
          "Decides, for the seven built-in alphabets, every clause the property states about their *definitions* (distinct ASCII letters, involutive case-preserving pairing closed over the alphabet, 3-minus-index complement rule, gap at index 0) from the constants in the source. It does not decide that the constructors build the tables the definitions describe.",
          "go/types constant evaluation; constructors interpret their arguments positionally", "DESIGN.md §2.J, §4/C17"),
